@@ -338,15 +338,19 @@ func (m Manager) SetNodeResourceCapacity(ctx context.Context, nodename string, n
 				return resp, err
 			})
 
-			if err != nil {
-				for plugin, resp := range resps {
-					if resp == nil {
-						continue
-					}
-					rollbackPlugins = append(rollbackPlugins, plugin)
-					before[plugin.Name()] = resp.Before
-					after[plugin.Name()] = resp.After
+			// the caller gets the capacity before and after the change in every case
+			// (it needs the former to undo the change when a later step of its own fails)
+			for plugin, resp := range resps {
+				if resp == nil {
+					continue
 				}
+				if err != nil {
+					rollbackPlugins = append(rollbackPlugins, plugin)
+				}
+				before[plugin.Name()] = resp.Before
+				after[plugin.Name()] = resp.After
+			}
+			if err != nil {
 				logger.Errorf(ctx, err, "failed to set node resource for node %+v", nodename)
 				return err
 			}
